@@ -11,39 +11,39 @@ import SarpyModel.Gen.Dispatch
 namespace Sarpy.Drivers
 open Sarpy Sarpy.Spec
 
-def showGet : Except Err Sel → String
+def dspGet : Except Err Sel → String
   | .error e => "err " ++ dErr e
-  | .ok s => showSel s
+  | .ok s => dspSel s
 
 def dispgenStep (toks : List String) : Option String :=
   match toks with
   | "get" :: ims :: "S" :: [v] => do
     let r ← dImages ims; let v ← dVal v
-    pure (showGet (Gen.Dispatch.dispatch_get r.length (.getitem v)))
+    pure (dspGet (Gen.Dispatch.dispatch_get r.length (.getitem v)))
   | "get" :: ims :: "T" :: vs => do
     let r ← dImages ims; let vs ← vs.mapM dVal
-    pure (showGet (Gen.Dispatch.dispatch_get r.length (.getitem (.tuple vs))))
+    pure (dspGet (Gen.Dispatch.dispatch_get r.length (.getitem (.tuple vs))))
   | "call" :: ims :: index :: raw :: sq :: vs => do
     let r ← dImages ims; let index ← index.toInt?; let raw ← dBool raw; let sq ← dBool sq; let vs ← vs.mapM dVal
-    pure (showGet (Gen.Dispatch.dispatch_get r.length (.call vs index raw sq)))
+    pure (dspGet (Gen.Dispatch.dispatch_get r.length (.call vs index raw sq)))
   | "read" :: ims :: index :: sq :: vs => do
     let r ← dImages ims; let index ← index.toInt?; let sq ← dBool sq; let vs ← vs.mapM dVal
-    pure (showGet (Gen.Dispatch.dispatch_get r.length (.read vs index sq)))
+    pure (dspGet (Gen.Dispatch.dispatch_get r.length (.read vs index sq)))
   | "readraw" :: ims :: index :: sq :: vs => do
     let r ← dImages ims; let index ← index.toInt?; let sq ← dBool sq; let vs ← vs.mapM dVal
-    pure (showGet (Gen.Dispatch.dispatch_get r.length (.readRaw vs index sq)))
+    pure (dspGet (Gen.Dispatch.dispatch_get r.length (.readRaw vs index sq)))
   | "readchip" :: ims :: index :: sq :: vs => do
     let r ← dImages ims; let index ← index.toInt?; let sq ← dBool sq; let vs ← vs.mapM dVal
-    pure (showGet (Gen.Dispatch.dispatch_get r.length (.readChip vs index sq)))
+    pure (dspGet (Gen.Dispatch.dispatch_get r.length (.readChip vs index sq)))
   | ["put", flags, "call", index, raw, start, sub] => do
     let f ← dFlags flags; let index ← index.toInt?; let raw ← dBool raw; let st ← dStart start; let sb ← dSubArg sub
-    pure (showPut (Gen.Dispatch.dispatch_put f (.call ⟨st, sb, index⟩ raw)))
+    pure (dspPut (Gen.Dispatch.dispatch_put f (.call ⟨st, sb, index⟩ raw)))
   | ["put", flags, kind, index, start, sub] => do
     let f ← dFlags flags; let index ← index.toInt?; let st ← dStart start; let sb ← dSubArg sub
     let a : PutArgs := ⟨st, sb, index⟩
     let req ← (if kind == "write" then some (PutRequest.write a) else if kind == "writeraw" then some (.writeRaw a)
       else if kind == "writechip" then some (.writeChip a) else none)
-    pure (showPut (Gen.Dispatch.dispatch_put f req))
+    pure (dspPut (Gen.Dispatch.dispatch_put f req))
   | _ => none
 
 end Sarpy.Drivers
